@@ -19,7 +19,7 @@ LEVEL_NOTE = ("In-process stack + the DBOS SQLite lifecycle lock as a component 
               "through the real DBOS runtime cannot run here (dbos package absent). A multi-lock-object thread stress on one SQLite file is reported as information only.")
 DESIGN_REF = "§5 C26"
 RULE = "case = (program, idle_timeout, send/restart schedule, yield seed) or (lifecycle script); distinct = hash of the scenario; non-trivial = >=1 release and >=1 send at/after it"
-REQUIRED_REACH = ["scenario", "release_snapshot_eval", "send_at_release_instant", "concurrent_senders", "restart_scenario", "conservation_eval", "slow_store", "stack_inproc", "stack_dbos_sub", "lifecycle_script", "lifecycle_stalled_releaser",
+REQUIRED_REACH = ["scenario", "release_snapshot_eval", "send_at_release_instant", "concurrent_senders", "restart_scenario", "conservation_eval", "slow_store", "stack_inproc", "stack_dbos_sub", "wake_scenario", "waiter_timeout_inside_release_round_trip", "lifecycle_script", "lifecycle_stalled_releaser",
                   "lifecycle_released_period", "lifecycle_crash_timeout_takeover"]
 ASSUMPTIONS = ["an event whose send_event call raised is not counted as sent (the caller was told)"]
 
@@ -149,6 +149,51 @@ def run_inproc(case, acc):
                 "loop_log": obs["loop_log"][:8], "releases": [r["t"] for r in obs["releases"]], "final": final})
 
 
+# ----------------------------------------------------------------- internal wake-up inside the release handler's store round trip
+def gen_wake(seed):
+    from vf import idle_cases as ic
+
+    rnd = random.Random(seed)
+    q = rnd.choice([0.1, 0.3])
+    I = rnd.choice([0.5, 1.0])
+    W = round(I + q * rnd.choice([3.5, 4, 4.5, 5, 5.5, 6, 6.5, 7, 7.5, 8]), 4)
+    spec, keys = ic.gen_program(rnd, n=rnd.randint(1, 2), waiter_timeout=W)
+    spec["sched_seed"] = seed
+    return {"seed": seed, "kind": "wake", "spec": spec, "keys": keys, "I": I, "W": W, "store_latency": q, "store": rnd.choice(["sqlite", "memory"])}
+
+
+def run_wake(case, acc):
+    """A waiter timeout (internal wake-up, takes no reload lock) lands while _release_idle_handler is suspended in its store
+    read: the run must not be released while it is doing the timeout's work.  Only the release-time monitors are evaluated
+    (the timer that is lost when a run IS legitimately released is C14's known finding)."""
+    from vf import idle_cases as ic
+
+    wit = {"case": case}
+    scn = {"spec": case["spec"], "idle_timeout": case["I"], "sends": [], "restarts": [], "yield_seed": None, "store": case["store"], "end": 60.0,
+           "store_latency": case["store_latency"]}
+    obs, cs = ic.run_scenario(scn)
+    acc.case()
+    acc.hit("wake_scenario")
+    if any(p["exc"] for p in obs["case_phases"]):
+        acc.inconclusive.append(f"wake scenario crashed seed={case['seed']}: {[p['exc'] for p in obs['case_phases'] if p['exc']][0][:300]}")
+        return
+    t_timeouts = [t["t"] for t in cs.tr.ticks if t["tick"] == "TickWaiterTimeout"]
+    for (a, b) in obs.get("release_attempts", []):
+        if any(a - 1e-9 <= t <= b + 1e-9 for t in t_timeouts):
+            acc.hit("waiter_timeout_inside_release_round_trip")
+            acc.sig(h({"wake": case["seed"]}))
+    for r in obs["releases"]:
+        if r.get("reason") != "idle_release" or "workers" not in r:
+            continue
+        acc.hit("release_snapshot_eval")
+        busy = {s: w for s, w in r["workers"].items() if w["q"] or w["ip"]}
+        pend = [x for x in r["buffer"] + r["recvq"] + r["pulled"] if x in ("TickAddEvent", "TickStepResult", "TickWaiterTimeout")]
+        if busy or pend:
+            acc.violation({"mech": "released_while_not_idle", "busy_steps": bool(busy), "pending_ticks": bool(pend), "wake": "waiter_timeout"},
+                          f"waiter timeout {case['W']}s, idle_timeout {case['I']}s, store round trip {case['store_latency']}s: run released at vt={r['t']} with step work {busy} / "
+                          f"pending ticks {pend}; release attempts {obs.get('release_attempts')}; timeout ticks at {t_timeouts}", wit)
+
+
 # ----------------------------------------------------------------- lifecycle lock state machine
 def run_lifecycle(seed, acc):
     from vf import boot, vclock
@@ -270,12 +315,17 @@ def run_shard(shard):
         run_inproc(gen_case(shard["seed"] + i), acc)
         for j in range(6):
             run_lifecycle(shard["seed"] + 7000 + i * 10 + j, acc)
+        for j in range(2):
+            run_wake(gen_wake(shard["seed"] + 9000 + i * 10 + j), acc)
     return acc.to_dict()
 
 
 def replay(rp):
     acc = Acc()
     c = rp["case"]["case"]
+    if c.get("kind") == "wake":
+        run_wake(c, acc)
+        return acc.to_dict()
     if c.get("kind") == "lifecycle":
         run_lifecycle(c["seed"], acc)
     else:
